@@ -363,6 +363,16 @@ static std::string handle(const std::vector<std::string>& f)
         nitro::lang::fixed_vector<int> c(v.size() + 1, v);
         return run_generic(ad, cat, write, c, orig);
     }
+    if (kind == "fvp")
+    {
+        // a fixed_vector that was fuller before: two more elements pushed and popped again (stale slots behind the end)
+        nitro::lang::fixed_vector<int> c(v.size() + 3, v);
+        c.push_back(901);
+        c.push_back(902);
+        c.pop_back();
+        c.pop_back();
+        return run_generic(ad, cat, write, c, orig);
+    }
     if (kind == "arr")
     {
         switch (v.size())
